@@ -249,6 +249,22 @@ func includeHeader(hdr string, signedHdrs []string) bool {
 // (PutObject / UploadPart) whose signature check is deferred to the end of
 // the body stream. Only requests whose handler reads the wrapped body reader
 // to EOF may be deferred: everything else must be verified up front.
+// ContentEncoding returns the request's Content-Encoding without the
+// "aws-chunked" token: that token describes how the request body is framed
+// on the wire (it is removed while the body is decoded) and is not a
+// property of the stored object.
+func ContentEncoding(ctx *fiber.Ctx) string {
+	var kept []string
+	for _, enc := range strings.Split(ctx.Get("Content-Encoding"), ",") {
+		enc = strings.TrimSpace(enc)
+		if enc == "" || strings.EqualFold(enc, "aws-chunked") {
+			continue
+		}
+		kept = append(kept, enc)
+	}
+	return strings.Join(kept, ",")
+}
+
 func IsBigDataAction(ctx *fiber.Ctx) bool {
 	if ctx.Method() != http.MethodPut {
 		return false
